@@ -196,12 +196,12 @@ func runCheck(def *CheckDef, flags map[string]string) int {
 		logDir = crossDir
 		defer os.RemoveAll(crossDir)
 	}
-	// Thorough tiers explore under a wall-clock budget (VERIF_BUDGET_S, default 420 s of
+	// Thorough tiers explore under a wall-clock budget (VERIF_BUDGET_S, default 240 s of
 	// exploration): jobs are taken in a seeded random order and the ones not started when
 	// the budget is used up are reported as not run - never as covered.
 	budget := 0
 	if tier == "thorough" {
-		budget = 420
+		budget = 240
 	}
 	if v, err := strconv.Atoi(os.Getenv("VERIF_BUDGET_S")); err == nil && v >= 0 {
 		budget = v
@@ -209,6 +209,21 @@ func runCheck(def *CheckDef, flags map[string]string) int {
 	if budget > 0 {
 		brng := rand.New(rand.NewSource(seed + 77))
 		brng.Shuffle(len(run.jobs), func(i, j int) { run.jobs[i], run.jobs[j] = run.jobs[j], run.jobs[i] })
+		// job families with few members (id prefix up to the first '-', at most 60 jobs) are special
+		// obligations rather than samples of a corpus: they go first, so that the budget never drops them
+		grp := func(id string) string {
+			if k := strings.Index(id, "-"); k > 0 {
+				return id[:k]
+			}
+			return id
+		}
+		size := map[string]int{}
+		for _, j := range run.jobs {
+			size[grp(j.ID)]++
+		}
+		sort.SliceStable(run.jobs, func(a, b int) bool {
+			return size[grp(run.jobs[a].ID)] <= 60 && size[grp(run.jobs[b].ID)] > 60
+		})
 		engine.ExploreDeadline = time.Now().Add(time.Duration(budget) * time.Second)
 	}
 	res, stats, err := engine.RunJobs(p, run.jobs, nworkers(), backend, true, logDir)
@@ -229,7 +244,7 @@ func runCheck(def *CheckDef, flags map[string]string) int {
 		}
 		run.jobs, res = kj, kr
 		run.extra["time_budget"] = map[string]interface{}{"exploration_budget_s": budget, "jobs_run": len(kj), "jobs_not_run": notRun,
-			"note": "jobs are started in a seeded random order until the budget is used up; jobs not started are outside this run's claim"}
+			"note": "jobs are started in a seeded random order until the budget is used up; jobs not started, or still in flight 30 s after it, are outside this run's claim"}
 		if notRun > 0 {
 			fmt.Printf("note: %d of %d jobs not started within the %d s exploration budget (reported in the evidence, not counted as covered)\n", notRun, notRun+len(kj), budget)
 		}
